@@ -15,7 +15,8 @@ def main(argv=None):
     ap.add_argument('--cls')
     ap.add_argument('--force', action='append', default=[], help='name=value: fix a case split (e.g. self_lp=_UCB1)')
     ap.add_argument('--tier', default=os.environ.get('VERIF_TIER', 'quick'))
-    ap.add_argument('--timeout', type=int, default=20000)
+    ap.add_argument('--timeout', type=int, default=60000,
+                    help='wall-clock backstop per solver call in ms; the deterministic rlimit decides')
     ap.add_argument('--jobs', type=int, default=16)
     ap.add_argument('-v', '--verbose', action='store_true')
     ap.add_argument('--write-baseline', action='store_true')
@@ -37,6 +38,9 @@ def main(argv=None):
             splits = [forced] if forced else report.target_splits(eng, q, args.cls or eng.repo.funcs[q].cls) \
                 if getattr(specmod.lookup(eng.repo, q, args.cls), 'twins', None) else [forced]
             for fo in splits:
+                smt._counter[0] = 1000000
+                smt._bv[0] = 1000000
+                del smt.FRESH_LOG[:]
                 o, p = eng.verify(q, args.cls, forced=fo)
                 obs += o
                 probs += p
